@@ -70,7 +70,7 @@ def gen_case(idx: int, seed: int, tier: str) -> Any:
         rng.shuffle(order)
         return {"kind": "crowd", "backend": rng.choice(["asyncio", "trio"]), "sched_seed": rng.randrange(1 << 30), "shuffle": rng.random() < 0.5,
                 "waiters": n, "burst": rng.choice([0, 3, 49, 50, 51, 60, 120]), "order": order, "yields": [rng.randint(0, 2) for _ in range(n)],
-                "publishers": rng.choice([1, 2, 3]), "second_burst": rng.choice([0, 0, 55]), "listener_queue": rng.choice([None, 1, 3])}
+                "publishers": rng.choice([1, 2, 3]), "second_burst": rng.choice([0, 0, 55]), "listener_queue": rng.choice([None, 1, 3]), "two_trees": rng.random() < 0.3}
     tree = e2.gen_tree(rng, wait_heavy=True, max_nodes=rng.choice([4, 6, 10]), p_remap=0.3, with_services=False)
     return {"backend": rng.choice(["asyncio", "trio"]), "sched_seed": rng.randrange(1 << 30), "shuffle": rng.random() < 0.5,
             "timeout": rng.choice([None, 1e6]), "tree": tree}
@@ -124,6 +124,26 @@ async def crowd_scenario(case: dict[str, Any], out: dict[str, Any]) -> None:
             for k in range(case["publishers"]):
                 self.add_component(f"p{k}", make_publisher(k))
 
+    class WaiterTree(Component):
+        def __init__(self) -> None:
+            for i in range(n):
+                self.add_component(f"w{i}", make_waiter(i))
+
+    class PublisherTree(Component):
+        def __init__(self) -> None:
+            for k in range(case["publishers"]):
+                self.add_component(f"p{k}", make_publisher(k))
+
+    async def start_all() -> None:
+        if case.get("two_trees"):
+            # the waiting components and the publishing ones belong to two component trees started concurrently in one context:
+            # "any component" that publishes releases a waiter
+            async with anyio.create_task_group() as stg:
+                stg.start_soon(lambda: start_component(WaiterTree, timeout=None))
+                stg.start_soon(lambda: start_component(PublisherTree, timeout=None))
+        else:
+            await start_component(Root, timeout=None)
+
     async with Context() as ctx:
         async with anyio.create_task_group() as tg:
             if case["listener_queue"] is not None:
@@ -141,7 +161,7 @@ async def crowd_scenario(case: dict[str, Any], out: dict[str, Any]) -> None:
             t0[0] = anyio.current_time()
             try:
                 with anyio.fail_after(100):
-                    await start_component(Root, timeout=None)
+                    await start_all()
                 out["returned_at"] = anyio.current_time() - t0[0]
             except BaseException as e:
                 out["error"] = e
@@ -281,6 +301,8 @@ def run_crowd(case: dict[str, Any]) -> dict[str, Any]:
         c["crowd_scenarios_with_burst_50plus"] = 1
     if case["listener_queue"] is not None:
         c["crowd_scenarios_with_a_slow_listener"] = 1
+    if case.get("two_trees"):
+        c["crowd_scenarios_with_two_component_trees"] = 1
     return {"violations": V[:3], "sig": ("crowd", tuple(sorted((k, str(v)) for k, v in case.items()))), "nontrivial": True, "counters": c, "sample": None}
 
 
